@@ -179,8 +179,11 @@ pub fn run(outdir: &Path, tier: &str, seed: u64, shards: usize, _replay: Option<
                     None => match Path::new(&a.query_rel).parent().map(|x| x.to_string_lossy().to_string()) { Some(par) if !par.is_empty() => format!("{}/{}.rs", par, stem), _ => format!("{}.rs", stem) },
                 };
                 let pre_existing = rng.chance(1, 2);
+                // sometimes much longer than anything the command will write (a regenerated, shorter file
+                // must not keep the old tail)
+                let old_contents: String = if rng.chance(1, 2) { "OLD CONTENTS".to_string() } else { "pub struct OldLeftover;\n".repeat(20000) };
                 if pre_existing {
-                    std::fs::write(work.join(&dest_rel), "OLD CONTENTS").unwrap();
+                    std::fs::write(work.join(&dest_rel), &old_contents).unwrap();
                 }
                 let mut before = std::collections::BTreeMap::new();
                 list_files(&work, &work, &mut before);
@@ -190,7 +193,7 @@ pub fn run(outdir: &Path, tier: &str, seed: u64, shards: usize, _replay: Option<
                 list_files(&work, &work, &mut after);
                 let mut written: Vec<String> = after.iter().filter(|(k, v)| before.get(*k) != Some(*v)).map(|(k, _)| k.clone()).collect();
                 written.extend(before.keys().filter(|k| !after.contains_key(*k)).cloned());
-                let old_untouched = !pre_existing || after.get(&dest_rel).map(|v| v.as_slice() == b"OLD CONTENTS").unwrap_or(false);
+                let old_untouched = !pre_existing || after.get(&dest_rel).map(|v| v.as_slice() == old_contents.as_bytes()).unwrap_or(false);
                 // the written file
                 let (file_obs, header_ok) = match after.get(&dest_rel).filter(|_| written.contains(&dest_rel)) {
                     Some(bytes) => {
